@@ -13,12 +13,100 @@ KNOWN_BAD = [r'(a+)+b', r'(a|a)*b', r'(a*)*b', r"'(''|\\\\|\\'|[^'])*'", r'(\s*\
 KNOWN_OK = [r'a*a*b', r"'(''|\\'|[^'])*'", r'(ab|cd)*e']
 
 
+def library_patterns():
+    """every regular expression the library actually runs, as (source, flags, where):
+    (a) the patterns COMPILED into the default lexer's rule list - set_SQL_REGEX may rewrite the sources of the table;
+    (b) every re.Pattern object reachable from the modules of the sqlparse package (module globals, class attributes,
+        one level of lists / tuples / dicts) - a regular expression applied to every word or token outside the rule table
+        backtracks just as well"""
+    import sys
+    import sqlparse  # noqa
+    import sqlparse.cli  # noqa
+    from sqlparse import keywords, lexer
+    out = []
+    table = [rx for rx, _ in keywords.SQL_REGEX]
+    compiled = None
+    try:
+        rl = lexer.Lexer.get_default_instance()._SQL_REGEX
+        compiled = [(m.__self__.pattern, m.__self__.flags) for m, _ in rl]
+    except Exception:  # noqa  (another representation: fall back to the source table)
+        compiled = None
+    if compiled:
+        out += [(src, fl, 'lexer rule %d' % i) for i, (src, fl) in enumerate(compiled)]
+    else:
+        out += [(src, regexnfa.FLAGS, 'SQL_REGEX[%d]' % i) for i, src in enumerate(table)]
+    nrules = len(out)
+    seen = {(src, fl) for src, fl, _ in out}
+
+    def visit(v, where, depth=0):
+        if isinstance(v, re.Pattern):
+            if (v.pattern, v.flags) not in seen and isinstance(v.pattern, str):
+                seen.add((v.pattern, v.flags))
+                out.append((v.pattern, v.flags, where))
+        elif depth < 2 and isinstance(v, (list, tuple, set, frozenset)):
+            for x in list(v)[:2000]:
+                visit(x, where, depth + 1)
+        elif depth < 2 and isinstance(v, dict):
+            for x in list(v.values())[:2000]:
+                visit(x, where, depth + 1)
+    # (c) patterns compiled on the fly (Token.match(regex=True) builds them from string tuples in the filters): observed
+    #     by wrapping re._compile while a workload touches every filter
+    orig = getattr(re, '_compile', None)
+    if orig is not None:
+        logged = []
+
+        def spy(pattern, flags):
+            if isinstance(pattern, str):
+                f = sys._getframe(1)
+                for _ in range(4):
+                    if f is None:
+                        break
+                    if '/sqlparse/' in f.f_code.co_filename:
+                        logged.append((pattern, int(flags) | (re.UNICODE if isinstance(pattern, str) else 0), f.f_code.co_filename.split('/sqlparse/')[-1] + ':' + f.f_code.co_name))
+                        break
+                    f = f.f_back
+            return orig(pattern, flags)
+        re._compile = spy
+        try:
+            import sqlparse as _sp
+            work = ("select a, b as c from t left outer join u on t.x = u.y where z in (select 1) and w = 2 group by a having b > 1 "
+                    "order by a desc limit 3; insert into t (a, b) values (1, 'x'); create table foo (id integer primary key); "
+                    "update t set a = case when b then 1 else 2 end where c between 1 and 2 -- c\n; select 1 union all select 2")
+            for kw in (dict(reindent=True), dict(reindent_aligned=True), dict(reindent=True, comma_first=True, indent_columns=True),
+                       dict(strip_comments=True, use_space_around_operators=True, strip_whitespace=True),
+                       dict(keyword_case='upper', identifier_case='lower', truncate_strings=3), dict(output_format='python'),
+                       dict(output_format='php', reindent=True, wrap_after=10)):
+                _sp.format(work, **kw)
+            for st in _sp.parse(work):
+                st.get_type()
+        except Exception:  # noqa
+            pass
+        finally:
+            re._compile = orig
+        for pat, fl, where in logged:
+            if (pat, fl) not in seen:
+                seen.add((pat, fl))
+                out.append((pat, fl, 'compiled in ' + where))
+    for name, mod in sorted(sys.modules.items()):
+        if not (name == 'sqlparse' or name.startswith('sqlparse.')) or mod is None:
+            continue
+        for an, av in sorted(vars(mod).items()):
+            visit(av, '%s.%s' % (name, an))
+            if isinstance(av, type) and getattr(av, '__module__', '').startswith('sqlparse'):
+                for cn, cv in sorted(vars(av).items()):
+                    visit(cv, '%s.%s.%s' % (name, an, cn))
+    return out, nrules
+
+
 def analyse(patterns):
     """-> per rule dict, atoms partition, TLA+ constant text"""
     rules = []
     atoms = []
     for rx in patterns:
-        nfa = regexnfa.build(rx)
+        fl = None
+        if isinstance(rx, tuple):
+            rx, fl = rx
+        nfa = regexnfa.build(rx, fl)
         ms, edges, acc = regexnfa.macro(nfa)
         rules.append({'rx': rx, 'nfa': nfa, 'ms': ms, 'edges': edges, 'acc': acc})
         for (p, at, pid, q) in edges:
@@ -156,7 +244,10 @@ def run(ctx):
     quick = ctx.tier == 'quick'
     rng = random.Random(ctx.seed)
     from sqlparse import keywords, lexer
-    patterns = [rx for rx, _ in keywords.SQL_REGEX]
+    lib, nrules = library_patterns()
+    patterns = [src for src, _, _ in lib]
+    pflags = [fl for _, fl, _ in lib]
+    ctx.cov['patterns_outside_rule_table'] = [w for _, _, w in lib[nrules:]]
     # ---- vacuity guard: the analysis flags the known-bad patterns and only those ----
     g_rules, g_reps, g_amap = analyse(KNOWN_BAD + KNOWN_OK)
     g_bad = {r for r, _ in run_tlc(ctx, g_rules, g_amap, 'RegexNFA_selftest')}
@@ -165,14 +256,14 @@ def run(ctx):
         raise MachineryError('EDA analysis self-test failed: flagged %s, expected %s' % (sorted(g_bad), sorted(want)))
     ctx.notes.append('self-test ok: %d known-bad patterns flagged, %d known-good not flagged' % (len(KNOWN_BAD), len(KNOWN_OK)))
     # ---- M: the current rule table -------------------------------------------------
-    rules, reps, amap = analyse(patterns)
+    rules, reps, amap = analyse(list(zip(patterns, pflags)))
     ctx.cov['rules'] = len(rules)
     ctx.cov['char_classes'] = len(reps)
     ctx.cov['nfa_macro_states'] = sum(len(r['ms']) for r in rules)
     bad = run_tlc(ctx, rules, amap, 'RegexNFA_rules')
     # ---- binding the NFA to re: accepts <=> fullmatch on class strings ------------------
     nbind = 0
-    compiled = [re.compile(rx, regexnfa.FLAGS) for rx in patterns]
+    compiled = [re.compile(rx, fl) for rx, fl in zip(patterns, pflags)]
     used_classes = sorted({c for r in rules for (p, at, pid, q) in r['edges'] for c in amap[id(at)]})
     L = 3 if quick else 4
     for ri, r in enumerate(rules):
@@ -225,7 +316,9 @@ def run(ctx):
             if pp is None:
                 continue
             pre, cyc = pp
-            for suffix in ('', '\x00', ' ', chr(reps[0])):
+            # what stops the match: nothing, and one character of every class (flagged rules: all classes, else a few)
+            sufs = [''] + [chr(c) for c in (reps if pv is not None else reps[:1] + [0, 32, 36, 35, 233])]
+            for suffix in sorted(set(sufs)):
                 jobs.append({'id': len(jobs), 'rule': ri, 'pre': pre, 'cyc': cyc, 'suf': suffix, 'sizes': sizes, 'cap': budget,
                              'eda': pv is not None})
         if ri < 3:
